@@ -538,6 +538,15 @@ class Inliner:
         view.defs = _reaching(self.fn, node)
         return view
 
+    def stored_value(self, e):
+        """for a load of `self.attr` / `d["k"]`: the one expression this function stores there (inlined), else `e` inlined"""
+        if isinstance(e, (ast.Attribute, ast.Subscript)):
+            t = norm_src(e)
+            hits = [v for tgt, v in self.stores if norm_src(tgt) == t]
+            if len(hits) == 1:
+                return self.expr(hits[0])
+        return self.expr(e)
+
     def single(self, name):
         d = self.defs.get(name)
         if name in self.params or not d or any(x is None for x in d):
@@ -1064,6 +1073,8 @@ def flatten_function(fn, methods, keep=(), depth=2, cls_name=None):
                 rename[p_] = arg.id              # read (and, same name, re-bound) as the caller's variable
             elif isinstance(arg, ast.Constant) and p_ not in assigned:
                 rename[p_] = arg
+            elif p_ not in assigned and isinstance(arg, ast.Attribute) and isinstance(arg.value, ast.Name) and arg.value.id in ("operator", "np", "math"):
+                rename[p_] = arg                 # a library function handed over as a value (operator.gt, np.minimum): read in place
             else:
                 rename[p_] = p_ + suffix if (p_ in caller_names) else p_
                 pre.append(ast.Assign(targets=[ast.Name(id=rename[p_], ctx=ast.Store())], value=_strip_parents(arg)))
@@ -1076,7 +1087,7 @@ def flatten_function(fn, methods, keep=(), depth=2, cls_name=None):
                 r = rename.get(n.id)
                 if r is None:
                     return n
-                if isinstance(r, ast.Constant):
+                if isinstance(r, (ast.Constant, ast.Attribute)):
                     return _strip_parents(r) if isinstance(n.ctx, ast.Load) else n
                 return ast.copy_location(ast.Name(id=r, ctx=n.ctx), n)
 
@@ -1134,6 +1145,26 @@ def flatten_function(fn, methods, keep=(), depth=2, cls_name=None):
     new = _strip_parents(fn)
     caller_names = names_assigned(new.body) | {x.arg for x in new.args.args}
     new.body = block(new.body, depth, caller_names)
+
+    class Ops(ast.NodeTransformer):
+        """operator.gt(a, b) -> a > b etc. (what a comparison handed over as a function value stands for)"""
+        CMP = {"gt": ast.Gt, "lt": ast.Lt, "ge": ast.GtE, "le": ast.LtE, "eq": ast.Eq, "ne": ast.NotEq}
+        BIN = {"add": ast.Add, "sub": ast.Sub, "mul": ast.Mult, "truediv": ast.Div}
+
+        def visit_Call(self, n):
+            self.generic_visit(n)
+            d = dotted(n.func) or ""
+            if d.startswith("operator.") and len(n.args) == 2 and not n.keywords:
+                k = d.split(".", 1)[1]
+                if k in self.CMP:
+                    return ast.copy_location(ast.Compare(left=n.args[0], ops=[self.CMP[k]()], comparators=[n.args[1]]), n)
+                if k in self.BIN:
+                    return ast.copy_location(ast.BinOp(left=n.args[0], op=self.BIN[k](), right=n.args[1]), n)
+            return n
+
+    new = Ops().visit(new)
+    from .canon import Canon
+    new = Canon({}, {}).visit(new)     # the inlined text in the same canonical orientation as everything else
     ast.fix_missing_locations(new)
     for node in ast.walk(new):
         for ch in ast.iter_child_nodes(node):
